@@ -12,6 +12,7 @@ import itertools
 import json
 import os
 import struct
+import zlib
 
 from mcx import core, elfgen as eg
 from mcx.core import Case, ChoiceSpace, ListSpace, guarded, Raised
@@ -77,7 +78,8 @@ def run_tables(ch):
     body = b''.join(enc(e) for e in ents)
     img.null()
     strs = img.add(eg.Sec('.strtab', 3, data=b'\0a\0'))
-    symtab = img.add(eg.Sec('.symtab', 2, data=f.sym(0, 0, 0, 0, 0, 0) * 2, link=strs.index, info=1, entsize=f.symsize, align=8))
+    symtab = img.add(eg.Sec('.symtab', 2, data=f.sym(0, 0, 0, 0, 0, 0) + b''.join(f.sym(1, 0x1000 + 16 * i, 4, 0x12, 0, 0xfff1) for i in range(max(count, 1) + 1)),
+                            link=strs.index, info=1, entsize=f.symsize, align=8))
     lead = ch.pick('file_position', [8, 1])
     rs = img.add(eg.Sec('.rela.text' if rela else '.rel.text', 4 if rela else 9, data=body, link=symtab.index, info=1,
                         entsize=f.relasize if rela else f.relsize, align=8, file_align=lead))
@@ -236,6 +238,8 @@ def run_apply(ch):
     symidx = ch.pick('symbol_index', [1, 0, 'last', 'count'])
     bad = ch.pick('rejection', [None, 'unsupported_type', 'wrong_flavour', 'unsupported_machine'])
     relocate = ch.pick('relocate_dwarf_sections', [True, False])
+    # the relocated section may be stored compressed: r_offset then indexes the INFLATED data, far beyond the stored size
+    shift = 4096 if ch.pick('target_storage', ['plain', 'compressed']) == 'compressed' else 0
     nsyms = 4
     symvals = [0, symval, 0x2000, 0xabcdef0123456789 & f.mask]
     sidx = {'last': nsyms - 1, 'count': nsyms}.get(symidx, symidx)
@@ -277,12 +281,19 @@ def run_apply(ch):
         else:
             body = f.rel(off, f.r_info(sym, ty))
         return body + (f.pack(f.SA, add) if rela else b'')
+    if shift:
+        relocs = [(r[0] + shift,) + tuple(r[1:]) for r in relocs]
+        payload = bytearray(b'\0' * shift + bytes(payload))
+        foff += shift
     relbytes = b''.join(enc(*r) for r in relocs)
     img.null()
     strs = img.add(eg.Sec('.strtab', 3, data=b'\0s1\0s2\0s3\0'))
     symtab = img.add(eg.Sec('.symtab', 2, data=b''.join(f.sym((0, 1, 4, 7)[i], symvals[i], 0, 0x10 if i else 0, 0, 0xfff1 if i else 0) for i in range(nsyms)),
                             link=strs.index, info=1, entsize=f.symsize, align=8))
-    info = img.add(eg.Sec('.debug_info', 1, data=bytes(payload)))
+    if shift:
+        info = img.add(eg.Sec('.debug_info', 1, data=f.chdr(1, len(payload), 1) + zlib.compress(bytes(payload), 9), flags=0x800))
+    else:
+        info = img.add(eg.Sec('.debug_info', 1, data=bytes(payload)))
     other_payload = eg.filler(SEED + 32, 48)
     line = img.add(eg.Sec('.debug_line', 1, data=other_payload))
     dstr = img.add(eg.Sec('.debug_str', 1, data=b'untouched\0strings\0', flags=0x30))
@@ -329,8 +340,8 @@ def run_apply(ch):
             if g != want:
                 fails.append((secname + ' bytes', 'unchanged', g))
         g = guarded(lambda: (dw.debug_info_sec.size, dw.debug_info_sec.name))
-        if g != (PAYLOAD, '.debug_info'):
-            fails.append(('debug_info_sec.size/name', (PAYLOAD, '.debug_info'), g))
+        if g != (PAYLOAD + shift, '.debug_info'):
+            fails.append(('debug_info_sec.size/name', (PAYLOAD + shift, '.debug_info'), g))
     # the file itself is never modified
     return Case(fails, data, repr((outc, exp_err)), nontrivial=bool(relocs) and relocate,
                 sample={'machine': mlabel, 'le': le, 'type': t, 'formula': table[t][1], 'relocs': [(o_, s_, ty_, a_) for o_, s_, ty_, a_ in relocs], 'symval': hex(symval),
